@@ -15,6 +15,10 @@ import warnings
 from . import core
 
 os.environ.setdefault("MPLBACKEND", "Agg")
+# 16 scenario workers x an OpenBLAS pool of 16+ spinning threads each starves the machine (scenarios of 60 ms
+# hit the 20 s watchdog under load); the arrays here are tiny.  Set before numpy is first imported.
+for _v in ("OPENBLAS_NUM_THREADS", "OMP_NUM_THREADS", "MKL_NUM_THREADS"):
+    os.environ.setdefault(_v, "1")
 
 GRID_LEGACY = ("single", "multi", "hexs", "hexm")
 GRID_NEW = ("moore", "vn", "hex")
